@@ -53,6 +53,7 @@ type FaultAt struct {
 type Proc struct {
 	Faults []FaultAt `json:"faults"`
 	Cfg    *Cfg      `json:"cfg,omitempty"` // configuration change before this incarnation
+	Node   int       `json:"node,omitempty"` // cluster node (0/1) this incarnation connects to; clustered mode only
 }
 
 // C18Scenario is a sequence of (possibly faulty) incarnations of Update; the
@@ -260,7 +261,15 @@ func (tr *scriptTracker) isScript(sqlText string) bool { return len(tr.candidate
 
 // runUpdate executes one incarnation of maintenance.Update.
 func runUpdate(st *ddl.State, proc int, log *[]ddl.Stmt, faults map[int]ddl.FaultKind, cfg Cfg, onApply func(*ddl.Stmt)) (err error, crashed bool, conn *ddl.Conn) {
+	return runUpdateOn(st, proc, 0, log, faults, cfg, onApply)
+}
+
+// runUpdateOn executes one incarnation connected to the given cluster node.
+func runUpdateOn(st *ddl.State, proc, node int, log *[]ddl.Stmt, faults map[int]ddl.FaultKind, cfg Cfg, onApply func(*ddl.Stmt)) (err error, crashed bool, conn *ddl.Conn) {
 	conn = ddl.NewConn(st, proc, log, faults)
+	if cfg.Cluster != "" {
+		conn.Node = node
+	}
 	conn.OnApply = onApply
 	defer func() {
 		if r := recover(); r != nil {
@@ -348,6 +357,7 @@ func RunC18(s C18Scenario) *simcheck.RunInfo {
 	var lastErr error
 	done := false
 	crashedLast := false
+	lastNode := 0
 	for _, p := range s.Procs {
 		if p.Cfg != nil {
 			c := *p.Cfg
@@ -359,7 +369,11 @@ func RunC18(s C18Scenario) *simcheck.RunInfo {
 			fm[f.Idx] = ddl.FaultKind(f.Kind)
 		}
 		before := len(log)
-		err, crashed, conn := runUpdate(st, proc, &log, fm, cfg, tr.onApply)
+		err, crashed, conn := runUpdateOn(st, proc, p.Node, &log, fm, cfg, tr.onApply)
+		lastNode = p.Node
+		if p.Node != 0 && cfg.Cluster != "" {
+			ri.Probes["incarnation-on-other-node"]++
+		}
 		for k, n := range conn.Fired {
 			ri.Faults[k.String()] += n
 		}
@@ -383,7 +397,9 @@ func RunC18(s C18Scenario) *simcheck.RunInfo {
 	// fault-free restarts until initialisation completes
 	restarts := 0
 	for !done && restarts < maxRestarts {
-		err, crashed, _ := runUpdate(st, proc, &log, nil, cfg, tr.onApply)
+		// a restarted process may reach the cluster through another node
+		lastNode = 1 - lastNode
+		err, crashed, _ := runUpdateOn(st, proc, lastNode, &log, nil, cfg, tr.onApply)
 		proc++
 		restarts++
 		lastErr, crashedLast = err, crashed
@@ -434,7 +450,7 @@ func RunC18(s C18Scenario) *simcheck.RunInfo {
 		}
 		// up to date => no migration script is executed
 		before := len(log)
-		err, _, _ := runUpdate(st, proc, &log, nil, cfg, tr.onApply)
+		err, _, _ := runUpdateOn(st, proc, 1-lastNode, &log, nil, cfg, tr.onApply)
 		if err != nil {
 			add(&simcheck.Violation{Property: "C18", Oracle: "rerun-fails", Signature: "rerun on up-to-date db: " + err.Error(), Detail: err.Error()})
 		}
